@@ -1,7 +1,7 @@
 """C13  Method cross-references are exact and symmetric   (engine E2: bounded structure enumeration).
 
 Space: the three-class / two-DEX model of gen/xrefmodels.xm3; the body of A.m<k> is every sequence of <= 2 (thorough: <= 3)
-items of the reference alphabet (10 invoke opcodes x 6 targets, 8 field opcodes x 5 fields, const-string(/jumbo) x 3 strings,
+items of the reference alphabet (10 invoke opcodes x 7 targets, 8 field opcodes x 5 fields, const-string(/jumbo) x 3 strings,
 new-instance / const-class x 5 types, 3 other type-referencing instructions), plus every item of the extended alphabet (all
 28 field opcodes, A.n as target) alone.  A.n and D.r (second DEX) have fixed bodies calling the same targets, so resolution is
 shared across methods and across DEX files.  Each model is written by gen/dexgen, analysed by the real
@@ -12,12 +12,12 @@ from checks import xref_common as C
 
 PROPERTY = "C13"
 LEVEL = "exploration"
-RULE = ("every body of <= 2 (thorough <= 3) items over a 119-item reference alphabet + 110 extended single items, one generated "
+RULE = ("every body of <= 2 (thorough <= 3) items over a 129-item reference alphabet + 110 extended single items, one generated "
         "program per body; non-trivial = the body contains at least one invoke; distinct by construction (the sequence is the "
         "enumeration index)")
 ASSUMPTIONS = ["invoke on an array-of-primitive receiver is skipped by design and is not in the alphabet",
-               "for an object-array receiver the external stub may carry the array type or its element class as class name "
-               "(androguard strips '['); only name, descriptor, externality and sharing are judged there",
+               "for an object-array receiver the external stub may carry the array type, its element class (androguard strips '[') "
+               "or java.lang.Object as class name; only name, descriptor, externality and sharing are judged there",
                "an array receiver whose element class defines a method of that name and descriptor must still resolve to an "
                "external stub: no analysed method has the array type as its class (statement: 'same class, name and descriptor')",
                "class-level get_xref_to/get_xref_from are judged for invoke kinds only (presence of every edge, no unexplained edge)",
@@ -31,7 +31,7 @@ MANIFEST = {
             "class-level xrefs / get_call_graph are compared edge by edge, offset by offset and by object identity with the "
             "relation derived from the generating model; complete for the stated bound.",
     "note": "Trusted: gen/dexgen.py, gen/dalvik.py, ref/xref.py. Receivers that are arrays of primitives are out of scope. "
-            "Length-3 bodies are analysed 119 at a time as sibling methods of one class.",
+            "Length-3 bodies are analysed 129 at a time as sibling methods of one class.",
 }
 
 
